@@ -1,0 +1,42 @@
+//go:build verif
+
+package parser
+
+// Verification hooks (build tag verif): token dump and character classes of the scanner, used
+// by the correspondence harness and the behavioural translators in /verif. Add-only.
+
+import "strings"
+
+type VerifToken struct {
+	Code  int
+	Value string
+}
+
+// Tokens of the input as the parser would see them, up to and including the first token with
+// code 0 (end of input or illegal character); at most max tokens.
+func VerifScan(input string, max int) []VerifToken {
+	s := newScanner(strings.NewReader(input))
+	var out []VerifToken
+	for i := 0; i < max; i++ {
+		t, v, _, _ := s.Scan()
+		out = append(out, VerifToken{Code: int(t), Value: v})
+		if int(t) == 0 {
+			break
+		}
+	}
+	return out
+}
+
+func VerifCharClass(ch rune) (whitespace, alnum, underscore, apostrophe, special bool) {
+	return isWhitespace(ch), isAlphaNum(ch), isUnderscore(ch), isApostrophe(ch), isSpecialSymbol(ch)
+}
+
+func VerifTokenName(code int) string {
+	if code == 0 {
+		return "EOF"
+	}
+	if code >= gritsPrivate+2 && code-gritsPrivate-2+3 < len(gritsToknames) {
+		return gritsToknames[code-gritsPrivate-2+3]
+	}
+	return "?"
+}
